@@ -1048,11 +1048,15 @@ class PiecewiseLinearCoalescentGrid(Distribution):
         # Integrate 1/N(t) over each interval
         intervals = grid_heights_sorted[..., 2:] - grid_heights_sorted[..., 1:-1]
         diff_thetas = pop_sizes[..., 2:] - pop_sizes[..., 1:-1]
-        diff_log_thetas = log_pop_sizes[..., 2:] - log_pop_sizes[..., 1:-1]
 
-        integral = intervals / thetas[..., -1:]
-        idx = (diff_thetas != 0.0).nonzero(as_tuple=True)
-        integral[idx] = intervals[idx] * diff_log_thetas[idx] / diff_thetas[idx]
+        # N goes linearly from N0 to N1 over an interval of length dt:
+        # integral = dt / N0 * log1p(x) / x with x = (N1 - N0) / N0
+        x = diff_thetas / pop_sizes[..., 1:-1]
+        flat = x.abs() < 1.0e-8
+        x_safe = torch.where(flat, torch.ones_like(x), x)
+        integral = (intervals / pop_sizes[..., 1:-1]) * torch.where(
+            flat, 1.0 - x / 2.0, torch.log1p(x_safe) / x_safe
+        )
 
         return -torch.sum(
             lchoose2[..., 1:] * integral,
